@@ -1,5 +1,5 @@
 # replay of a bounded stand-in violation (C13): re-run native/c13_tdm.py
 import sys
-print('delays=[2, 3], leading identity bins per loop=[4, 1]: get_crop_value() = 3, in the hand-written loop the first 2 detected pulses are vacuum and pulse 2 carries light')
+print('delays=[2, 3], leading identity bins per loop=[3, 4]: get_crop_value() = 5, in the hand-written loop the first 4 detected pulses are vacuum and pulse 4 carries light')
 print('REPLAY-VIOLATION')
 sys.exit(1)
